@@ -21,9 +21,9 @@ def run(ctx: Ctx) -> int:
     ctx.assumptions = ["a construct 'takes effect as in Python' iff CPython's execution of the source and the walk over the real CFG agree on result and event trace for all inputs within the bound",
                        "rejection with any GuppyError counts as a compile error"]
     # stage 2 (E5): every accepted program also through the checked CFGs of the real front end
-    jobs += e4_check.jobs_for(ctx, "c32", total, batch=1, timeout=ctx.pick(300, 900), total=total, harness="harness/E5_equiv.py", fn="h_equiv5")
+    jobs += e4_check.jobs_for(ctx, "c32", total, batch=3, timeout=ctx.pick(300, 900), total=total, harness="harness/E5_equiv.py", fn="h_equiv5")
     # stage 3 (E7): and through the HUGR /repo's back end emits (a construct the checker keeps but the lowering drops would show here)
-    jobs += e4_check.jobs_for(ctx, "c32", total, batch=1, timeout=ctx.pick(300, 900), total=total, harness="harness/E7_equiv.py", fn="h_equiv7")
+    jobs += e4_check.jobs_for(ctx, "c32", total, batch=3, timeout=ctx.pick(300, 900), total=total, harness="harness/E7_equiv.py", fn="h_equiv7")
     ctx.functions_encoded.append("stage 3: the HUGR emitted for every accepted program (compiler/*.py) interpreted by lib/e7.py")
     ctx.crosshair(jobs)
     v = e4_check.collect_verdicts(ctx, crash_is_note=True)
